@@ -199,9 +199,17 @@ def structural_edit(doc, rng):
     if not paths:
         return d, "none"
     p = rng.choice(paths)
-    kind = rng.choice(["delete", "retype", "rename", "transplant", "null"])
+    kind = rng.choice(["delete", "retype", "rename", "transplant", "null", "add member", "add member"])
     try:
-        if kind == "delete":
+        if kind == "add member":
+            # a member the object does not declare: a vendor extension, an unknown name, a well-known name out of place
+            objs = [q for q in [()] + paths if isinstance(get_at(d, q), dict)]
+            refs = [q for q in objs if "$ref" in get_at(d, q)]
+            q = rng.choice(refs) if refs and rng.random() < 0.4 else rng.choice(objs)
+            name = rng.choice(["x-note", "x-", "X-upper", "bogus", "description", "type", "required", "items", "schema", "in", "name", "default"])
+            get_at(d, q)[name] = copy.deepcopy(rng.choice(RETYPE_VALUES))
+            p = tuple(q) + (name,)
+        elif kind == "delete":
             del_at(d, p)
         elif kind == "retype":
             set_at(d, p, copy.deepcopy(rng.choice(RETYPE_VALUES)))
@@ -221,6 +229,23 @@ def structural_edit(doc, rng):
     except Exception:
         return copy.deepcopy(doc), "none"
     return d, "%s at /%s" % (kind, "/".join(str(x) for x in p))
+
+
+ADD_NAMES = ["x-note", "x-", "X-upper", "bogus", "description", "type", "required", "items", "schema", "in", "name", "default", "$ref", "id"]
+
+
+def single_added_member(doc, rng):
+    """a valid document with exactly one member added somewhere: names and hosts (reference objects first) taken in turn"""
+    d = copy.deepcopy(doc)
+    objs = [q for q in [()] + [p for p in all_paths(d) if p] if isinstance(get_at(d, q), dict)]
+    refs = [q for q in objs if "$ref" in get_at(d, q)]
+    q = rng.choice(refs) if refs and next_variant("added_host", 2) == 0 else rng.choice(objs)
+    name = ADD_NAMES[next_variant("added_name", len(ADD_NAMES))]
+    host = get_at(d, q)
+    if name in host:
+        name = "x-other"
+    host[name] = copy.deepcopy(rng.choice(["internal", 1, True, None, {"a": 1}, ["x"]]))
+    return d, "add member %s at /%s" % (name, "/".join(str(x) for x in q))
 
 
 def rename_names(doc, rng):
@@ -470,6 +495,16 @@ def edit_bad_items_pattern(d, rng):
     return "items of a response schema with an invalid pattern"
 
 
+def edit_header_array_no_items(d, rng):
+    p, m, op = rng.choice(_ops(d))
+    code = rng.choice(sorted(op["responses"]))
+    if next_variant("header_no_items", 2) == 0:
+        op["responses"][code].setdefault("headers", {})["X-List"] = {"type": "array"}
+        return "array header without items"
+    op.setdefault("parameters", []).append({"name": "nested", "in": "query", "type": "array", "items": {"type": "array"}})
+    return "items of a parameter that are an array without items"
+
+
 def edit_schema_array_no_items(d, rng):
     p, m, op = rng.choice(_ops(d))
     code = rng.choice(sorted(op["responses"]))
@@ -502,7 +537,7 @@ BREAKING = [("unique operation ids", edit_dup_opid, False), ("path parameters ma
             ("no circular ancestry", edit_circular, False), ("patterns are valid", edit_bad_pattern, False),
             ("no empty placeholder", edit_empty_placeholder, False), ("no overlapping paths", edit_overlap, True),
             ("at most one body parameter", edit_body_via_shared, False), ("patterns are valid", edit_bad_items_pattern, False),
-            ("arrays declare items", edit_schema_array_no_items, False)]
+            ("arrays declare items", edit_schema_array_no_items, False), ("arrays declare items", edit_header_array_no_items, False)]
 HARMLESS = [keep_required_via_additional, keep_required_via_nested_additional, keep_case_variant_names, keep_same_opid_other_case, keep_two_placeholders_one_segment, keep_same_name_other_location]
 
 
